@@ -139,6 +139,14 @@ def one_case(ctx, cid, rng, path, idx):
 
     fam = gen.BT_FAMILIES[idx % len(gen.BT_FAMILIES)]
     bt = gen.gen_bt(rng, fam, max_chroms=4, max_bins=20, widths=(1, 2, 3, 5, 10, 1000))
+    if idx % 9 == 8:
+        bt = gen.gen_giant_bt(rng)             # cumulative genome offsets exceed 2**31
+        fam = "giant_variable"
+    elif idx % 9 == 7:
+        w_ = int([10**4, 10**6, 25 * 10**5][int(rng.integers(3))])
+        bt = [[f"chr{j + 1}", gen.fixed_edges(int(rng.integers(1, 9)) * w_ + int(rng.integers(0, w_)) + 1, w_)]
+              for j in range(int(rng.integers(1, 4)))]
+        fam = "genomic_scale_fixed"
     if path in ("cli_pairs", "cli_bg2", "cli_coo", "tabix"):
         bt = [[c.replace(" ", "_"), e] for c, e in bt]
     n = gen.bt_nbins(bt)
